@@ -97,13 +97,14 @@ fn check_image_ctx(scene: &Scene, door: Door, kind: TargetKind, mode: u8, r: &mu
 /// centre far from the origin must be drawn there, the same triangle with reversed winding must leave the buffer alone.
 fn check_default_context_large(i: u64, r: &mut Report) {
     r.eval();
-    let (bw, bh) = (2048u32, 3u32);
-    let cx = [2u32, 517, 1000, 1531, 2040, 2046][(i % 6) as usize];
+    // (both coordinates large: 2048 x 2048 target, centres along the diagonal and in the far corner)
+    let (bw, bh) = (2048u32, 2048u32);
+    let (cx, cy) = [(2u32, 2u32), (517, 1900), (1000, 1000), (1531, 700), (2040, 2041), (2046, 1777)][(i % 6) as usize];
     let size = [0.75f32, 0.4, 0.2, 0.11][(i / 6 % 4) as usize];
     let shape: [[f32; 2]; 3] = [[[-1.0, -0.7], [1.0, -0.6], [0.0, 1.0]], [[-1.0, 0.9], [0.1, -1.0], [0.9, 0.8]], [[-0.6, -1.0], [0.9, 0.2], [-0.8, 0.7]]][(i / 24 % 3) as usize];
     let w = [1.0f32, 2.5][(i / 72 % 2) as usize];
-    let (pcx, pcy) = (cx as f32 + 0.5, 1.5f32);
-    let mut t = STri { v: std::array::from_fn(|k| { let (px, py) = (pcx + size * shape[k][0], pcy + size * shape[k][1]); [(px / 1024.0 - 1.0) * w, (py / 1.5 - 1.0) * w, 0.1 * w, w] }), a: PERMS[(i % 6) as usize] };
+    let (pcx, pcy) = (cx as f32 + 0.5, cy as f32 + 0.5);
+    let mut t = STri { v: std::array::from_fn(|k| { let (px, py) = (pcx + size * shape[k][0], pcy + size * shape[k][1]); [(px / 1024.0 - 1.0) * w, (py / 1024.0 - 1.0) * w, 0.1 * w, w] }), a: PERMS[(i % 6) as usize] };
     let s: Vec<[f64; 2]> = (0..3).map(|k| [(pcx + size * shape[k][0]) as f64, (pcy + size * shape[k][1]) as f64]).collect();
     let mut area2 = (s[1][0] - s[0][0]) * (s[2][1] - s[0][1]) - (s[1][1] - s[0][1]) * (s[2][0] - s[0][0]);
     let want_front = i / 144 % 2 == 0;
@@ -115,13 +116,13 @@ fn check_default_context_large(i: u64, r: &mut Report) {
     let tag = format!("default-context|x={cx}|size={size}|{}", if want_front { "front" } else { "back" });
     let out = match render_scene(&scene, None, DOORS[(i % 3) as usize], [TargetKind::Owned, TargetKind::ColorOnly][(i / 3 % 2) as usize], &Context::default(), Discard::Never, None) { Ok(o) => o, Err(p) => { r.violation(format!("render-panic|{tag}"), p, case()); return; } };
     let orc = Oracle::new(&scene);
-    let idx = (bw + cx) as usize; // pixel (cx, 1)
-    match orc.pixel(cx, 1) {
+    let idx = (cy * bw + cx) as usize;
+    match orc.pixel(cx, cy) {
         Truth::Inside { attr, .. } => {
             let drawn = out.color[idx] != color_sentinel(idx);
-            if want_front && !drawn { r.violation(format!("inside-not-drawn|{tag}"), format!("front-facing triangle of {size} px around pixel ({cx},1) of a 2048-wide target was not drawn under the default context"), case()); return; }
-            if want_front && !((unpack(out.color[idx]) as f64 - attr).abs() <= 0.005) { r.violation(format!("attribute|{tag}"), format!("pixel ({cx},1): attribute {} expected {attr}", unpack(out.color[idx])), case()); return; }
-            if !want_front && (0..(bw * bh) as usize).any(|p| out.color[p] != color_sentinel(p)) { r.violation(format!("outside-written|{tag}"), format!("back-facing triangle of {size} px around pixel ({cx},1) was drawn under the default context (back-face culling)"), case()); return; }
+            if want_front && !drawn { r.violation(format!("inside-not-drawn|{tag}"), format!("front-facing triangle of {size} px around pixel ({cx},{cy}) of a 2048 x 2048 target was not drawn under the default context"), case()); return; }
+            if want_front && !((unpack(out.color[idx]) as f64 - attr).abs() <= 0.005) { r.violation(format!("attribute|{tag}"), format!("pixel ({cx},{cy}): attribute {} expected {attr}", unpack(out.color[idx])), case()); return; }
+            if !want_front && ((cy.saturating_sub(2))..(cy + 3).min(bh)).any(|y| ((cx.saturating_sub(2))..(cx + 3).min(bw)).any(|x| { let p = (y * bw + x) as usize; out.color[p] != color_sentinel(p) })) { r.violation(format!("outside-written|{tag}"), format!("back-facing triangle of {size} px around pixel ({cx},{cy}) was drawn under the default context (back-face culling)"), case()); return; }
             r.nontrivial();
         }
         _ => r.h("default-context:centre-ambiguous"),
@@ -224,7 +225,7 @@ fn run_image(cfg: &Cfg) -> ! {
     rep.sample(0, || obj! {"scene" => "single triangle [[-1.5,1.2,0.4,2],[1.2,-0.35,2,-1],[-0.35,-1.5,-1.5,0.5]] attrs (0,1,0.25), buffer 8x6, viewport x1..7 y2..5, door Batch, target SubView"});
     rep.sample(1, || obj! {"multi" => "ordered triples from a 24-triangle pool of visible triangles with distinct outcode signatures"});
     rep.finish(cfg, "exploration",
-        "scenes = every ordered vertex triple of a clip-space lattice (x,y,z,w incl. negative w; triangles whose plane passes through the clip-space origin filtered and counted) x attribute permutation x viewport/buffer family x front door {render, Batch, Camera} x target {Framebuf<Buf2>, Framebuf<MutSlice2> over strided sub-views of larger buffers, colour-only Buf2, colour-only strided MutSlice2 sub-view}; plus every ordered pair and triple from a 24-triangle pool; plus 1 in 16 scenes re-rendered with all clip coordinates scaled by 2^-20 and 2^7 (same image); plus one scene in six with the attribute carried by a Point2, Vec3, Color4f, (Vec2,f32) or Angle varying instead of f32; plus one multi-triangle scene in five with the depth buffer initialised to negative values, -0.0, f32::MIN or -infinity; plus small triangles (0.11 .. 0.75 px) in both windings around pixel centres up to x = 2046 of a 2048-wide target under the default context (back-face culling); plus painter scenes (pairs/triples of the C06 pool with disjoint visible depth ranges, BackToFront sort, colour-only target or depth test off). Oracle: independent f64 per-pixel reference (projective barycentric solve, nearest by 1/w) with the statement's ambiguity mask (16 probes at 0.03 px, internal fan edges from the public clip API, 0.1% depth ties): inside => attribute within 0.5% and 1/w within 0.2%, outside => sentinel colour and depth intact. non-trivial = scene with >=1 judged inside pixel that is clipped or multi-triangle.",
+        "scenes = every ordered vertex triple of a clip-space lattice (x,y,z,w incl. negative w; triangles whose plane passes through the clip-space origin filtered and counted) x attribute permutation x viewport/buffer family x front door {render, Batch, Camera} x target {Framebuf<Buf2>, Framebuf<MutSlice2> over strided sub-views of larger buffers, colour-only Buf2, colour-only strided MutSlice2 sub-view}; plus every ordered pair and triple from a 24-triangle pool; plus 1 in 16 scenes re-rendered with all clip coordinates scaled by 2^-20 and 2^7 (same image); plus one scene in six with the attribute carried by a Point2, Vec3, Color4f, (Vec2,f32) or Angle varying instead of f32; plus one multi-triangle scene in five with the depth buffer initialised to negative values, -0.0, f32::MIN or -infinity; plus small triangles (0.11 .. 0.75 px) in both windings around pixel centres up to (2046, 2041) of a 2048 x 2048 target under the default context (back-face culling); plus painter scenes (pairs/triples of the C06 pool with disjoint visible depth ranges, BackToFront sort, colour-only target or depth test off). Oracle: independent f64 per-pixel reference (projective barycentric solve, nearest by 1/w) with the statement's ambiguity mask (16 probes at 0.03 px, internal fan edges from the public clip API, 0.1% depth ties): inside => attribute within 0.5% and 1/w within 0.2%, outside => sentinel colour and depth intact. non-trivial = scene with >=1 judged inside pixel that is clipped or multi-triangle.",
         &["attribute range is 1 (values 0, 0.25, 1)", "the fragment shader smuggles the attribute's bit pattern through the colour word", "initial depth = per-pixel distinct values < 3e-7"]);
 }
 
@@ -533,7 +534,8 @@ fn explore_order(scene: &Scene, r: &mut Report, scene_id: u64, discard: Discard)
     if disjoint {
         r.eval();
         let ctx = Context { depth_test: None, depth_sort: Some(DepthSort::BackToFront), ..ctx_plain() };
-        let all: Vec<usize> = (0..n).rev().collect();
+        // (both submission orders: a sort that leaves ties in submission order is only exposed by one of them)
+        for all in [(0..n).rev().collect::<Vec<usize>>(), (0..n).collect::<Vec<usize>>()] {
         if let (Ok(a), Ok(b)) = (render_scene(scene, Some(&all), Door::Render, TargetKind::Owned, &ctx, discard, None), render_scene(scene, None, Door::Render, TargetKind::Owned, &ctx_plain(), discard, None)) {
             r.transitions += 1;
             let full = expected((1 << n) - 1);
@@ -541,6 +543,7 @@ fn explore_order(scene: &Scene, r: &mut Report, scene_id: u64, discard: Discard)
                 let p = (0..px).find(|&p| full[p].is_some() && a.color[p] != b.color[p]).unwrap();
                 r.violation(format!("painter|scene{scene_id}|{}", short(scene)), format!("depth test off + BackToFront differs from the depth-buffered image at pixel {p}: {:#x} vs {:#x}", a.color[p], b.color[p]), obj! {"kind" => "painter", "scene" => scene_json(scene)});
             } else { r.h("painter-clause-checked"); }
+        }
         }
     }
     r.nontrivial += (overlap > 0) as u64;
